@@ -59,6 +59,99 @@ def shared_resources(repo):
     return ({k: v for k, v in params.items() if len(v) > 1}, {k: v for k, v in currents.items() if len(v) > 1})
 
 
+def tainted_names(fn: ast.FunctionDef, is_source) -> set:
+    """Local names whose value depends (flow-insensitively, to a fixpoint) on an expression satisfying `is_source`:
+    assignments, augmented assignments, stores into / appends to a local container, loop variables of loops over a
+    dependent iterable, and comprehension variables.  Control dependence on a guard is included for containers that are
+    filled under that guard."""
+    tainted = set()
+
+    COMPS = (ast.ListComp, ast.SetComp, ast.GeneratorExp, ast.DictComp)
+
+    def dep(e, local=frozenset(), shadow=frozenset()):
+        """does the value of e depend on a source?  Comprehension variables are scoped to their comprehension."""
+        if is_source(e):
+            return True
+        if isinstance(e, ast.Name):
+            if e.id in local:
+                return True
+            if e.id in shadow:
+                return False
+            return e.id in tainted
+        if isinstance(e, COMPS):
+            loc, sh = set(local), set(shadow)
+            res = False
+            for g in e.generators:
+                names = set(targets(g.target))
+                if dep(g.iter, frozenset(loc), frozenset(sh)):
+                    loc |= names
+                    sh -= names
+                    res = True
+                else:
+                    sh |= names
+                    loc -= names
+                res = res or any(dep(c, frozenset(loc), frozenset(sh)) for c in g.ifs)
+            parts = [e.key, e.value] if isinstance(e, ast.DictComp) else [e.elt]
+            return res or any(dep(p_, frozenset(loc), frozenset(sh)) for p_ in parts)
+        return any(dep(c, local, shadow) for c in ast.iter_child_nodes(e) if isinstance(c, ast.AST) and not isinstance(c, (ast.expr_context,)))
+
+    def root_name(t):
+        while isinstance(t, (ast.Subscript, ast.Attribute)):
+            t = t.value
+        return t.id if isinstance(t, ast.Name) else None
+
+    def targets(t):
+        if isinstance(t, ast.Name):
+            return [t.id]
+        if isinstance(t, (ast.Tuple, ast.List)):
+            return [x for y in t.elts for x in targets(y)]
+        r = root_name(t)
+        return [r] if r and r not in ("self", "cls") else []
+
+    changed = True
+    while changed:
+        changed = False
+        before = len(tainted)
+
+        def visit(stmts, guard_dep):
+            for st in stmts:
+                if isinstance(st, ast.Assign):
+                    if dep(st.value) or guard_dep:
+                        for t in st.targets:
+                            for nm in targets(t):
+                                if dep(st.value) or not isinstance(t, ast.Name):
+                                    tainted.add(nm)
+                elif isinstance(st, ast.AugAssign):
+                    if dep(st.value) or guard_dep:
+                        tainted.update(targets(st.target))
+                elif isinstance(st, ast.Expr) and isinstance(st.value, ast.Call) and isinstance(st.value.func, ast.Attribute) and \
+                        st.value.func.attr in ("append", "extend", "add", "update", "insert", "setdefault"):
+                    if guard_dep or any(dep(a) for a in st.value.args):
+                        r = root_name(st.value.func.value)
+                        if r and r not in ("self", "cls"):
+                            tainted.add(r)
+                elif isinstance(st, (ast.For, ast.AsyncFor)):
+                    if dep(st.iter):
+                        tainted.update(targets(st.target))
+                    visit(st.body, guard_dep)
+                    visit(st.orelse, guard_dep)
+                elif isinstance(st, ast.While):
+                    visit(st.body, guard_dep or dep(st.test))
+                elif isinstance(st, ast.If):
+                    g = guard_dep or dep(st.test)
+                    visit(st.body, g)
+                    visit(st.orelse, g)
+                elif isinstance(st, (ast.With, ast.Try)):
+                    for blk in ("body", "orelse", "finalbody"):
+                        visit(getattr(st, blk, []) or [], guard_dep)
+                    for h in getattr(st, "handlers", []):
+                        visit(h.body, guard_dep)
+            # comprehension variables
+        visit(fn.body, False)
+        changed = len(tainted) != before
+    return tainted
+
+
 def _undo(repo, col):
     R = "R-C19-undo"
     shared_p, shared_c = shared_resources(repo)
@@ -115,10 +208,20 @@ def _undo(repo, col):
         if s is None:
             continue
         # the remaining channels may be consulted by the column list (drop only unshared columns) or by the row
-        # selection (NaN only the rows where no remaining channel that declares the column is present)
+        # selection (NaN only the rows where no remaining channel that declares the column is present); "consulted" =
+        # the selector depends, through any chain of local assignments / containers / loops, on self.base.channels
+        is_src = lambda n: isinstance(n, ast.Attribute) and n.attr == "channels" and isinstance(n.value, ast.Attribute) and n.value.attr == "base"
+        deps = tainted_names(dele.node, is_src)
+        if key == "params+states":
+            sel_nodes = [s.node.targets[0].slice] if isinstance(s.node, ast.Assign) and isinstance(s.node.targets[0], ast.Subscript) else \
+                ([s.node.slice] if isinstance(s.node, ast.Subscript) else [])
+        else:
+            sel_nodes = [k.value for k in s.node.keywords if k.arg == "columns"] if isinstance(s.node, ast.Call) else []
         cols = s.key if key == "params+states" and s.key.op == "tuple" else (s.value.kw.get("columns") if key == "columns" else None)
         consult = cols is not None and T.find(cols, lambda x: x.op == "attr" and x.name == "channels" and
                                               T.find(x, lambda y: y.op == "attr" and y.name == "base") is not None) is not None
+        consult = consult or any(is_src(n) or (isinstance(n, ast.Name) and n.id in deps) for sn in sel_nodes for n in ast.walk(sn))
+        col.info.setdefault("delete_channel_names_depending_on_base_channels", sorted(deps))
         what = "set to NaN in view" if key == "params+states" else "dropped"
         col.check(consult, R, dele, f"delete_channel: parameter columns {what} exclude those still used by other channels",
                   "column list consults the remaining channels",
@@ -204,6 +307,8 @@ def _pair(repo, col):
     R = "R-C19-pair"
     pair_delete(repo, col, R)
     _pair_rest(repo, col, R)
+    from . import c08
+    c08._pairing(repo, col, R)
 
 
 def pair_delete(repo, col, R):
